@@ -29,6 +29,11 @@ func VerifDependentBodySchema(block *hcl.Block, blockSchema *schema.BlockSchema)
 }
 
 // VerifSetMaxCandidates lowers the candidate limit so that the limit logic can be exercised with small schemas.
+// VerifMaxCandidates returns the candidate limit of a path decoder.
+func VerifMaxCandidates(d *PathDecoder) uint {
+	return d.maxCandidates
+}
+
 func VerifSetMaxCandidates(d *PathDecoder, n uint) {
 	d.maxCandidates = n
 }
